@@ -3,6 +3,9 @@
 GW_EVENTS = ["message_approved", "message_executed", "signers_rotated", "contract_called",
              "ownership_transferred", "operatorship_transferred"]
 
+ITS_EVENTS = ["contract_called", "gas_paid", "delivery_executed", "transfer_received", "token_executed",
+              "trusted_chain_set", "trusted_chain_removed", "token_id_claimed", "ownership_transferred"]
+
 GW_TRACE = {"kind": "trace", "spec": "TraceGateway", "module": "Gateway", "quick": (8, 250), "thorough": (64, 600)}
 
 GOOD_PROOF = {"set": "s1", "sigs": ["Valid", "Valid"]}
@@ -294,6 +297,25 @@ PROPS = {
         "level_text": "Bounded input-space coverage against a TLA+ transcription of the ABI rules (the 'self-contained function with rich case analysis' use of TLC), not a state-machine argument: TLC encodes a catalogue of messages, checks round trip and injectivity on its own encoder, and decides every mutant of selected encodings (every single-byte flip at every offset with masks 0x01/0x80, every truncation, extensions, offset/length words +-1/+-32, type tags, amounts >= 2^127, decimals 256, invalid UTF-8); the contract's abi_encode / abi_decode must agree byte for byte, never panic, and re-encode every accepted input to itself.",
         "rule": "cases = encode / decode / decode-of-mutant evaluations, each decided by TLC and executed against the contract codec; distinct = distinct (message, mutation) pairs",
         "assumptions": ["Abi.tla is a faithful transcription of the Solidity ABI specification for tuples of (uint256, bytes32, bytes/string, uint8)", "bounds: dynamic fields up to 33 (quick) / 65 (thorough) bytes; mutants of every 29th (quick) / 7th (thorough) catalogue entry"],
+    },
+    "C11": {
+        "title": "Token ids are deterministic, write-once; deployed tokens stay ITS-mintable",
+        "policy": {"guards": ["already_deployed", "already_registered", "its_can_mint", "metadata"],
+                   "fields": ["reg", "regTok", "tokMeta", "minters", "tokOwner", "tokSelfId", "idcheck", "bal"],
+                   "events": ["token_id_claimed"], "rets": ["DeployInterchainToken", "RegisterCanonical"]},
+        "jobs": [
+            {"kind": "graph", "spec": "MC_C11", "cfg": "MC_C11_small", "tiers": ["quick"], "module": "ITS", "evkinds": ITS_EVENTS,
+             "need": ["DeployInterchainToken/ok", "DeployInterchainToken/already_deployed", "DeployInterchainToken/metadata",
+                      "RegisterCanonical/ok", "RegisterCanonical/already_registered", "Deliver/ok", "Deliver/already_deployed"],
+             "control": sibling_control(["name", "caller", "auth"], "salt"), "quick_edges": 12000, "max_len": 40, "workers": 12},
+            {"kind": "graph", "spec": "MC_C11", "cfg": "MC_C11_full", "tiers": ["thorough"], "module": "ITS", "evkinds": ITS_EVENTS,
+             "need": ["DeployInterchainToken/ok", "DeployInterchainToken/already_deployed", "DeployInterchainToken/metadata",
+                      "RegisterCanonical/ok", "RegisterCanonical/already_registered", "Deliver/ok", "Deliver/already_deployed"],
+             "control": sibling_control(["name", "caller", "auth"], "salt"), "quick_edges": 12000, "max_len": 40, "workers": 12},
+        ],
+        "level_text": "TLC proves write-once registry, roles after every deployment (service + designated minter only, initial supply credited, metadata as requested), 'taken ids refuse' and service-mintability on every transition of a finite instance (every supply x minter combination, boundary metadata, same salt / other deployer, canonical registrations, remote deploy messages that collide or not, an inbound transfer after every deployment); transitions are executed against the real service, which deploys the repository's pinned interchain_token.wasm; the binding derives every catalogue id through the contract, checks determinism, injectivity and chain-name sensitivity, that token_address(id) is the address derived from (service, id) and that the token reports that id.",
+        "rule": "cases = transitions of the bounded TLC instance replayed against the contracts; distinct = distinct (abstract pre-state, action) pairs",
+        "assumptions": ["soroban-env-host test mode implements on-chain semantics", "service-deployed tokens run the pinned interchain_token.wasm (no wasm32 target offline)", "bounds: 3 local ids, 2 canonical tokens, 1 remote id"],
     },
 }
 
